@@ -229,6 +229,17 @@ def _one_path(run, repo, sc, res, scen, d, meas, F):
             continue
         if not (isinstance(den, Arr) and den.origin == 'sum' and den.parents):
             raise AnalysisError(f'{scen}: denominator of the conditional probability of column {j} is not a sum -- form not recognised')
+        # ... and not overwritten where it is small: entries of the sum replaced under a mask that compares it with an absolute constant (same reason as above)
+        masked = [r_ for r_ in (den.tags.get('stores') or []) if any(s_[0] == 'idx' or (isinstance(s_[0], str) and s_[0] not in ('all', 'int', 'range', 'rev')) for s_ in r_['sel'])] or \
+            ([r_ for r_ in (den.tags.get('stores') or [])] if den.buf.writes else [])
+        if masked:
+            if any((a_.tags.get('expr') or ('',))[0] == 'truediv' or a_.origin in ('truediv', 'norm') for a_ in _ancestors(den, values_only=True)):
+                raise AnalysisError(f'{scen}: measured site {j}: entries of the normalising sum are overwritten, and the weights are re-scaled on the way: not decided')
+            run.oblige('D3', (ENTRY, scen, j, 'normaliser'), False)
+            run.add(F('D3', 'normaliser of the conditional probability', f'{scen}: measured site {j}: entries of the sum of the weights are overwritten (at {masked[0].get("where", "?")}) before it '
+                      'divides: the sum is the joint probability of the bits drawn so far (the environment is never normalised) and legitimately becomes tiny for long registers; '
+                      'replacing it there makes P(0 | earlier bits) wrong for every later bit of that sample', node))
+            continue
         sum_of = _strip(den.parents[0])
         same_x = sum_of is X
         run.oblige('D3', (ENTRY, scen, j, 'same weights'), same_x)
